@@ -45,6 +45,8 @@ def is_unknown_helper(prog, name):
         return False
     if name.startswith("<"):        # trait impl methods are addressed through their trait by the rules
         return False
+    if name in getattr(prog, "no_inline", ()):   # functions a rule module identified by role (e.g. after a rename)
+        return False
     return last_segment(name) not in known_words()
 
 
